@@ -507,6 +507,16 @@ func c08Strata() []*gast.Grammar {
 		mk(r("S", gast.S(gast.St(3, mon.Spec{S: 8}), gast.St(4, mon.Spec{S: 8}), gast.Lab("a", gast.Ref("E1")), gast.St(9, mon.Spec{S: 1}), gast.Star(gast.Dot()))),
 			r("E1", gast.C(gast.S(gast.Ref("E1"), gast.L(","), gast.St(2, mon.Spec{S: 17}), gast.Ref("At")), gast.S(gast.Ref("E1"), gast.L(";"), gast.St(5, mon.Spec{S: 24}), gast.Ref("At")), gast.Ref("At"))),
 			r("At", act(gast.Plus(gast.Cl(&gast.ClassSpec{Ranges: [][2]rune{{'0', '9'}}})), 6, mon.Spec{R: 2}))),
+		// non-recursive alternatives that can match the empty string (the property only asks the
+		// recursive tails to be non-nullable): the first pass may well be empty and still has to grow
+		mk(r("S", gast.S(gast.Lab("a", gast.Ref("Lst")), gast.NotE(gast.Dot()))),
+			r("Lst", gast.C(act(gast.S(gast.Lab("a", gast.Ref("Lst")), gast.L(","), gast.Lab("b", gast.Ref("Item"))), 1, mon.Spec{}), gast.Opt(gast.Ref("Item")))),
+			r("Item", act(gast.Plus(gast.Cl(gast.Chars("ab"))), 2, mon.Spec{R: 2}))),
+		mk(r("S", gast.S(gast.L("<"), gast.Lab("a", gast.Ref("Num")), gast.L(">"), gast.Star(gast.Dot()))),
+			r("Num", gast.C(act(gast.S(gast.Lab("a", gast.Ref("Num")), gast.Lab("b", gast.Cl(&gast.ClassSpec{Ranges: [][2]rune{{'0', '9'}}}))), 1, mon.Spec{}), gast.L("")))),
+		mk(r("S", gast.S(gast.Lab("a", gast.Ref("E1")), gast.Star(gast.Dot()))),
+			r("E1", gast.C(act(gast.S(gast.Lab("a", gast.Ref("E1")), gast.L("+"), gast.Lab("b", gast.Ref("At"))), 1, mon.Spec{}), gast.S(gast.Lab("a", gast.Ref("E1")), gast.L("-"), gast.Ref("At")), gast.Ref("At"), gast.Star(gast.L(" ")))),
+			r("At", act(gast.Plus(gast.Cl(&gast.ClassSpec{Ranges: [][2]rune{{'0', '9'}}})), 2, mon.Spec{R: 2}))),
 	}
 }
 
